@@ -106,7 +106,73 @@ def run(chk):
         if tgt_lower and tgt_keys_same and r2[0] == 0:
             chk.violation("targets keys did not change, yet a lower targets version was accepted", full)
         clientrun.check_correspondence(chk, s, impl, model)
+    interrupted_walk(chk)
     return chk
+
+
+def interrupted_walk(chk):
+    """Three cycles: (1) stores fast-forwarded timestamp and snapshot; (2) walks past the root that replaces online keys
+    (an old key stays authorised next to the new one, so the stored documents still verify) and then fails INSIDE the
+    root walk - the newest root has lapsed, the next root file is garbage, or the chain is longer than
+    max_root_updates; (3) meets the repaired repository (re-signed roots, same online keys as the rotating one),
+    restarted at version 1. The rotation has happened since the client's previous SUCCESSFUL cycle: cycle 3 must be
+    accepted."""
+    d = scen.DEFAULT_ROLES
+    rots = {"timestamp-overlap": {"timestamp": ([3, 4], 1)}, "snapshot-overlap": {"snapshot": ([1, 5], 1)},
+            "both-overlap": {"timestamp": ([4, 3], 1), "snapshot": ([5, 1], 1)}, "timestamp-disjoint": {"timestamp": ([4], 1)}}
+    scens, metas = [], []
+    for cs in (False, True):
+        for rname, change in rots.items():
+            for stop in ("lapsed-newest-root", "garbage-next-root", "chain-longer-than-limit"):
+                for hi_v in (7, 2 ** 63):
+                    s = scen.Scen()
+                    roles2 = dict(d)
+                    roles2.update(change)
+                    r1 = s.root(cs=cs)
+                    r2 = s.root(version=2, cs=cs, roles=roles2, sigs=scen.valid([0]))
+                    r2_lapsed = s.root(version=2, cs=cs, roles=roles2, sigs=scen.valid([0]), expires=-86400)
+                    r3 = s.root(version=3, cs=cs, roles=roles2, sigs=scen.valid([0]))
+                    new_signers = {"snapshot": [roles2["snapshot"][0][0]] if "snapshot" in change else [1], "targets": [2],
+                                   "timestamp": [roles2["timestamp"][0][0]] if "timestamp" in change else [3]}
+                    new_signers = {k: [x for x in v if x not in (1, 3)] or v for k, v in new_signers.items()}
+                    _, hi = scen.simple_repo(s, cs=cs, root=r1, versions=(hi_v, hi_v, 2, 2))
+                    _, lo = scen.simple_repo(s, cs=cs, root=r1, versions=(1, 1, 2, 2), signers=new_signers)
+                    s.cycle(r1, hi)
+                    second = dict(hi)
+                    limits = {}
+                    if stop == "lapsed-newest-root":
+                        second["2.root.json"] = {"doc": r2_lapsed}
+                    elif stop == "garbage-next-root":
+                        second["2.root.json"] = {"doc": r2}
+                        second["3.root.json"] = {"doc": s.junk("{ not a root")}
+                    else:
+                        second["2.root.json"] = {"doc": r2}
+                        second["3.root.json"] = {"doc": r3}
+                        limits = {"updates": 1}
+                    s.cycle(r1, second, limits=limits)
+                    third = dict(lo)
+                    third["2.root.json"] = {"doc": r2}
+                    third["3.root.json"] = {"doc": r3}
+                    s.cycle(r1, third)
+                    scens.append(s)
+                    metas.append((cs, rname, stop, hi_v))
+    results = clientrun.run_scenarios(chk, scens)
+    for s, (cs, rname, stop, hi_v), (impl, model, mcase) in zip(scens, metas, results):
+        chk.seen(mcase, True)
+        chk.count("interrupted-walk-" + stop)
+        desc = {"family": "rotation seen by a cycle that then fails inside the root walk", "rotation": rname, "stopped_by": stop,
+                "stored_versions": hi_v, "consistent_snapshot": cs,
+                "implementation": [clientrun.show_cycle(x) for x in impl] if isinstance(impl, list) else impl}
+        full = dict(desc, scenario=s.case())
+        if not isinstance(impl, list) or len(impl) != 3 or any(x[0][0] >= 900 for x in impl) or impl[0][0][0] != 0:
+            chk.broken("three-cycle scenario did not run", full)
+            continue
+        if impl[1][0][0] == 0:
+            chk.broken("the middle cycle was meant to fail inside the root walk, it succeeded: %s" % impl[1][0], full)
+        if impl[2][0][0] != 0:
+            chk.violation("timestamp/snapshot keys were replaced by a newer root since the last successful cycle (a failed "
+                          "cycle in between had walked past that root), yet the restarted repository is refused: %s" % impl[2][0], full)
+        clientrun.check_correspondence(chk, s, impl, model)
 
 
 def replay(path):
